@@ -204,7 +204,11 @@ def _run(doc, walk, pe, rest, directed):
     if k == "S":
       if pe:
         if el != walk[-1]:
-          return None, SOFT      # segment not incident to the preceding edge
+          # the other end of the edge (wrong side): hard; a segment that is
+          # not an end of the preceding edge at all: the specification is
+          # silent (soft)
+          e = walk[-2]
+          return None, (HARD if el in joins(doc, e[0], e[1]) else SOFT)
         pe = False
       else:
         fit = fitting(doc, walk[-1], el, directed)
@@ -222,8 +226,10 @@ def _run(doc, walk, pe, rest, directed):
         other = j[1] if walk[-1] == j[0] else j[0]
       if not ok:
         # after an edge: consecutive edges share no junction (hard);
-        # after a segment: edge not incident to that segment (soft)
-        return None, (HARD if pe else SOFT)
+        # after a segment which is the far end of the edge (reading D): hard;
+        # after a segment which is no end of the edge at all: soft
+        inc = walk[-1] in joins(doc, el[0], el[1])
+        return None, (HARD if pe or inc else SOFT)
       walk = walk + [el, other]
       pe = True
     else:
